@@ -92,6 +92,11 @@ bool is_freed(const void* p);
 // virtual time
 int64_t vnow_ns();
 
+// run harness bookkeeping invisibly to the runtime (no scheduling points, no race /
+// atomic modelling, allocations go to malloc): for restoring process-wide state only.
+void untracked_begin();
+void untracked_end();
+
 // ---------------------------------------------------------------- explorer
 struct Bounds {
     int P = 2;  // preemptions
